@@ -131,6 +131,40 @@ pub mod point {
 
 pub mod buffer {
     pub mod cell_buffer {
+        pub struct Frag(pub i32);
+        impl Frag {
+            pub fn merge(&self, other: &Frag) -> Option<Frag> {
+                if self.0 + 1 == other.0 {
+                    Some(Frag(other.0))
+                } else {
+                    None
+                }
+            }
+        }
+        pub struct CellBuffer(pub Vec<Vec<Frag>>);
+        impl CellBuffer {
+            /// C10.I3: a relation between fragments applied to the flattened per-span results
+            fn join(all: &mut Vec<Frag>, extra: Frag) {
+                for f in all.iter_mut() {
+                    if let Some(j) = f.merge(&extra) {
+                        *f = j;
+                        return;
+                    }
+                }
+                all.push(extra);
+            }
+            pub fn get_fragment_spans(self) -> Vec<Frag> {
+                let mut all: Vec<Frag> = self.0.into_iter().flatten().collect();
+                Self::join(&mut all, Frag(0));
+                all
+            }
+            pub fn endorse_to_fragment_spans(self) -> Vec<Frag> {
+                self.0.into_iter().flatten().collect()
+            }
+            pub fn group_nodes_and_fragments(self) -> usize {
+                self.0.len()
+            }
+        }
         pub mod endorse {
             use crate::point::Point;
             /// C05.R3: corner test on quantised end points
